@@ -18,9 +18,9 @@ import (
 )
 
 const (
-	crashKill  = 0 // UnsyncedDataPercent 100: everything written survives
-	crashPower = 1 // UnsyncedDataPercent 0: only synced data survives
-	crashTorn  = 2 // UnsyncedDataPercent ~50: a random subset of unsynced blocks / dir entries
+	crashKill  = 0 // process kill: everything written survives
+	crashPower = 1 // power loss: only synced data and synced directory entries survive
+	crashTorn  = 2 // torn: every directory operation survives, each unsynced 4 KiB data block survives with probability tornPct
 	crashModes = 3
 )
 
@@ -59,7 +59,14 @@ type simDisk struct {
 }
 
 func newSimDisk() *simDisk {
-	return &simDisk{mem: vfs.NewCrashableMem(), kinds: map[string]int{}}
+	d := &simDisk{mem: vfs.NewCrashableMem(), kinds: map[string]int{}}
+	// the data directory exists (durably) long before the store is opened
+	d.mem.MkdirAll("/db", 0o755)
+	if root, err := d.mem.OpenDir("/"); err == nil {
+		root.Sync()
+		root.Close()
+	}
+	return d
 }
 
 // before is called ahead of every mutating call.
@@ -80,8 +87,12 @@ func (d *simDisk) takeLocked(kind string) {
 	}
 	cp.clones[crashKill] = d.mem.CrashClone(vfs.CrashCloneCfg{UnsyncedDataPercent: 100, RNG: rand.New(rand.NewPCG(1, 1))})
 	cp.clones[crashPower] = d.mem.CrashClone(vfs.CrashCloneCfg{UnsyncedDataPercent: 0})
-	cp.clones[crashTorn] = d.mem.CrashClone(vfs.CrashCloneCfg{UnsyncedDataPercent: d.tornPct,
-		RNG: rand.New(rand.NewPCG(d.tornSeed, uint64(d.ops)+1))})
+	// MemFS' own partial clone also drops directory entries independently of
+	// each other, a disk model Pebble does not claim to survive (it publishes a
+	// new MANIFEST and its marker with ONE directory sync). The torn image keeps
+	// the directory as written and tears file data only; it is built here,
+	// deterministically, from the two exact clones.
+	cp.clones[crashTorn] = tornImage(cp.clones[crashKill], cp.clones[crashPower], d.tornPct, rand.New(rand.NewPCG(d.tornSeed, uint64(d.ops)+1)))
 	d.points = append(d.points, cp)
 }
 
@@ -267,6 +278,79 @@ func diskListing(fs *vfs.MemFS) string {
 			out += fmt.Sprintf("%s:%d ", p, st.Size())
 		}
 	}
+	walk("/")
+	return out
+}
+
+func readAll(fs *vfs.MemFS, p string) ([]byte, bool) {
+	st, err := fs.Stat(p)
+	if err != nil || st.IsDir() {
+		return nil, false
+	}
+	f, err := fs.Open(p)
+	if err != nil {
+		return nil, false
+	}
+	defer f.Close()
+	buf := make([]byte, st.Size())
+	n, _ := f.ReadAt(buf, 0)
+	return buf[:n], true
+}
+
+// tornImage builds the disk found after a crash that persisted every
+// directory operation but only some of the unsynced data blocks: the tree of
+// the kill clone, and per file the synced content (power clone) overlaid with a
+// random subset of the 4 KiB blocks that differ from it.
+func tornImage(kill, power *vfs.MemFS, pct int, rng *rand.Rand) *vfs.MemFS {
+	out := vfs.NewCrashableMem()
+	var walk func(dir string)
+	walk = func(dir string) {
+		names, err := kill.List(dir)
+		if err != nil {
+			return
+		}
+		sort.Strings(names)
+		for _, n := range names {
+			p := kill.PathJoin(dir, n)
+			st, err := kill.Stat(p)
+			if err != nil {
+				continue
+			}
+			if st.IsDir() {
+				out.MkdirAll(p, 0o755)
+				walk(p)
+				continue
+			}
+			full, _ := readAll(kill, p)
+			synced, ok := readAll(power, p)
+			if !ok || len(synced) > len(full) {
+				synced = nil
+			}
+			res := append([]byte(nil), synced...)
+			const blockSize = 4096
+			for i := 0; i < len(full); i += blockSize {
+				end := min(i+blockSize, len(full))
+				if end <= len(res) && string(full[i:end]) == string(res[i:end]) {
+					continue
+				}
+				if rng.IntN(100) >= pct {
+					continue
+				}
+				if grow := end - len(res); grow > 0 {
+					res = append(res, make([]byte, grow)...)
+				}
+				copy(res[i:end], full[i:end])
+			}
+			f, err := out.Create(p, vfs.WriteCategoryUnspecified)
+			if err != nil {
+				continue
+			}
+			f.Write(res)
+			f.Sync()
+			f.Close()
+		}
+	}
+	out.MkdirAll("/", 0o755)
 	walk("/")
 	return out
 }
